@@ -179,7 +179,7 @@ def terrName : TErr → String
   | .maxAckDelay => "max_ack_delay" | .activeCIDLimit => "active_cid_limit" | .clientSent => "client_sent"
   | .wrongLen => "wrong_len" | .cidLen => "cid_len" | .paCIDLen => "pa_cid_len" | .paLen => "pa_len"
   | .minGtMax => "min_gt_max" | .missingODCID => "missing_odcid" | .missingISCID => "missing_iscid"
-  | .duplicate => "duplicate" | .ticketVersion => "ticket_version"
+  | .duplicate => "duplicate" | .ticketVersion => "ticket_version" | .panic => "PANIC"
 
 def hexRaw (b : Bytes) : String := String.ofList (b.flatMap fun x => [hexChar (x.toNat / 16), hexChar (x.toNat % 16)])
 
@@ -302,6 +302,100 @@ def vsweep2Entry (hi lo : Nat) : String :=
   | .ok (v, n) => s!"{v}/{n}/{hx (Varint.enc v)}/{Varint.len v}"
   | .error .eof => "e"
   | .error .ueof => "u"
+
+/-! ### composite boundary ops: one-word summaries of a parser run -/
+
+def commas (s : String) : String := ",".intercalate (words s)
+
+def decSumm (c : Ctx) (b : Bytes) : String :=
+  match decode c b with
+  | .frame f n => s!"ok:{kindOfFrame f}:{n}"
+  | .done => "END"
+  | .err e ft => s!"E:{errName e},ft={ft}"
+  | .panic => "PANIC"
+
+def tpSumm (r : Except TP.TErr TP.Params) : String :=
+  match r with
+  | .ok _ => "ok"
+  | .error .panic => "PANIC"
+  | .error e => s!"E:{terrName e}"
+
+def shdrText (n : Nat) (b : Bytes) : String :=
+  match Hdr.parseShortHeader b n with
+  | .error e => s!"E:{herrName e}"
+  | .ok o => s!"ok n={o.n} pn={o.pn} pnl={o.pnLen} kp={o.keyPhase} res={if o.reservedOK then "ok" else "bad"}"
+
+def cidText (n : Nat) (b : Bytes) : String :=
+  match Hdr.parseConnectionID b n with
+  | .error e => s!"E:{herrName e}"
+  | .ok c => s!"ok {hx c}"
+
+def acidText (b : Bytes) : String :=
+  match Hdr.parseArbitraryLenConnectionIDs b with
+  | .error e => s!"E:{herrName e}"
+  | .ok (n, d, sc) => s!"ok n={n} d={hx d} s={hx sc}"
+
+def vnText (b : Bytes) : String :=
+  match Hdr.parseVersionNegotiation b with
+  | .error e => s!"E:{herrName e}"
+  | .ok (d, sc, vs) => s!"ok d={hx d} s={hx sc} v={vlist vs}"
+
+/-- the model's summary for `kind args` on `b` (same words as `runner.summ` in the Go driver) -/
+def summ (kind : String) (args : List String) (b : Bytes) : String :=
+  match kind, args with
+  | "dec", [lvl, flags, exp] => decSumm (ctxOf lvl flags exp) b
+  | "tpdec", [pers] => tpSumm (TP.unmarshal b (if pers = "s" then TP.perspectiveServer else TP.perspectiveClient) false)
+  | "tpstdec", [] => tpSumm (TP.unmarshalFromSessionTicket b)
+  | "lhdr", [] => commas (fmtLhdr b)
+  | "shdr", [n] => commas (shdrText (natOf n) b)
+  | "cid", [n] => commas (cidText (natOf n) b)
+  | "acid", [] => commas (acidText b)
+  | "vn", [] => commas (vnText b)
+  | _, _ => "skip"
+
+/-- monitors on one summary the implementation printed for input `b` -/
+def summFails (kind : String) (args : List String) (b : Bytes) (e : String) : List (String × String × String) :=
+  let ws := e.splitOn ","
+  (if e.startsWith "PANIC" then [("no_panic", "-", s!"{kind} panicked on {hx b}")] else []) ++
+  (match kind, args with
+   | "dec", [lvl, flags, exp] =>
+     if e.startsWith "ok:" then
+       let c := ctxOf lvl flags exp
+       (match e.splitOn ":" with
+        | [_, _, n] => if natOf n > b.length then [("consumed_le_len", "-", s!"n={n} > {b.length} bytes of {hx b}")] else []
+        | _ => []) ++
+       (match rfcForbidden c.lvl c.supportsDatagrams c.supportsResetStreamAt c.supportsAckFrequency b with
+        | some why => [("rejects_out_of_range", "-", s!"{hx b} accepted although RFC 9000 forbids it: {why}")]
+        | none => [])
+     else []
+   | "tpdec", [pers] =>
+     if e = "ok" then
+       match tpForbidden (pers = "c") b with
+       | some why => [("rejects_out_of_range", "-", s!"transport parameters {hx b} accepted although RFC 9000 §18.2 forbids: {why}")]
+       | none => []
+     else []
+   | "lhdr", [] =>
+     if e.startsWith "ok," then
+       let pl := kvn ws "pl="; let pkt := kvn ws "pkt="; let rest := kvn ws "rest="
+       if pl > b.length ∨ pkt + rest ≠ b.length ∨ pl > pkt then [("hdr_consumed", "-", s!"pl={pl} pkt={pkt} rest={rest} of {b.length} bytes")] else []
+     else if e.startsWith "unsup," then
+       if kvn ws "pl=" > b.length then [("hdr_consumed", "-", s!"pl={kvn ws "pl="} of {b.length} bytes")] else []
+     else []
+   | "shdr", [_] => if e.startsWith "ok," ∧ kvn ws "n=" > b.length then [("hdr_consumed", "-", s!"n={kvn ws "n="} of {b.length} bytes")] else []
+   | "acid", [] => if e.startsWith "ok," ∧ kvn ws "n=" > b.length then [("hdr_consumed", "-", s!"n={kvn ws "n="} of {b.length} bytes")] else []
+   | "cid", [_] => if e.startsWith "ok," ∧ hexLen (ws.getD 1 "-") > 20 then [("rejects_out_of_range", "-", "connection ID longer than 20 bytes")] else []
+   | _, _ => [])
+
+/-- a varint of `v` in `width` bytes (minimal width when it does not fit), as the driver's `putVarint` -/
+def encWidth (v width : Nat) : Bytes :=
+  if Varint.len v > width then Varint.enc v else (Varint.appendWithLen [] v width).getD (Varint.enc v)
+
+/-- run model and monitors over a list of inputs; `impl` is the `;`-joined list the implementation printed -/
+def runEntries (kind : String) (args : List String) (inputs : List Bytes) (impl : String) : String × List (String × String × String) :=
+  let model := ";".intercalate (inputs.map (summ kind args))
+  let entries := impl.splitOn ";"
+  let fails := (inputs.zip entries).flatMap fun (b, e) => summFails kind args b e
+  (model, fails ++ (if entries.length ≠ inputs.length ∧ !isPanic impl then [("sweep_complete", "-", s!"{entries.length} entries for {inputs.length} inputs")] else []))
 
 /-! ### the step function -/
 
@@ -713,6 +807,7 @@ def step (s : St) (op impl : String) : St × StepOut :=
     let sentBy := if pers = "s" then TP.perspectiveServer else TP.perspectiveClient
     let model := match TP.unmarshal b sentBy false with
       | .ok p => s!"ok {fmtTP p}"
+      | .error .panic => "PANIC"
       | .error e => s!"E:{terrName e}"
     let iw := words impl
     let fails : List Fail := Id.run do
@@ -773,6 +868,7 @@ def step (s : St) (op impl : String) : St × StepOut :=
   | ["tpstdec", h] =>
     let model := match TP.unmarshalFromSessionTicket (unhx h) with
       | .ok p => s!"ok {fmtTP p}"
+      | .error .panic => "PANIC"
       | .error e => s!"E:{terrName e}"
     (s, { model := model, tags := [s!"tpstdec:{if model.startsWith "ok" then "ok" else model}"], fails := noPanic [] })
   | ["smax", ms, a, b, c] =>
@@ -846,6 +942,34 @@ def step (s : St) (op impl : String) : St × StepOut :=
         return fails
       (s, { model := model, tags := [s!"csplit:{(model.take 5).toString}"], fails := fails })
     | _ => (s, { model := "skip", tags := ["skip"] })
+  | ["tpb", pers, pre, ids, vs, fol] =>
+    let pre := unhx pre; let id := natOf ids; let v := unhx vs; let fol := unhx fol
+    let one (declared : Nat) (val : Bytes) : List Bytes :=
+      let body := pre ++ Varint.enc id ++ Varint.enc declared ++ val
+      [body, body ++ fol]
+    let cutIns := (List.range (v.length + 3)).flatMap fun l => one l ((v ++ List.replicate l 0x5a).take l)
+    let offIns := ([-2, -1, 1, 2] : List Int).flatMap fun d =>
+      if (v.length : Int) + d ≥ 0 then one ((v.length : Int) + d).toNat v else []
+    let (model, fails) := runEntries "tpdec" [pers] (cutIns ++ offIns) impl
+    (s, { model := model, tags := [s!"tpb:{pers}:{if id = 13 then "pa" else if id = 2 then "srt" else if id = 0 ∨ id = 15 ∨ id = 16 then "cid" else "other"}"], fails := fails })
+  | "cut" :: kind :: rest =>
+    let args := rest.dropLast
+    let b := unhx (rest.getLast?.getD "-")
+    let (model, fails) := runEntries kind args ((List.range (b.length + 1)).map fun k => b.take k) impl
+    (s, { model := model, tags := [s!"cut:{kind}"], fails := fails })
+  | "lenb" :: kind :: rest =>
+    let n := rest.length
+    let args := rest.take (n - 5)
+    let pre := unhx (rest.getD (n - 5) "-"); let v := natOf (rest.getD (n - 4) "0"); let width := natOf (rest.getD (n - 3) "0")
+    let post := unhx (rest.getD (n - 2) "-"); let fol := unhx (rest.getD (n - 1) "-")
+    let inputs := ([-2, -1, 0, 1, 2] : List Int).flatMap fun d =>
+      if (v : Int) + d < 0 then [] else
+        let nv := ((v : Int) + d).toNat
+        if width = 0 then (if nv > 255 then [] else [pre ++ [UInt8.ofNat nv] ++ post, pre ++ [UInt8.ofNat nv] ++ post ++ fol])
+        else if nv > 2 ^ 62 - 1 then []
+        else [pre ++ encWidth nv width ++ post, pre ++ encWidth nv width ++ post ++ fol]
+    let (model, fails) := runEntries kind args inputs impl
+    (s, { model := model, tags := [s!"lenb:{kind}"], fails := fails })
   | ["tokdec", _, h] =>
     let b := unhx h
     let model := match Token.decodeOutcome b with
